@@ -246,6 +246,15 @@ def run_library(spec, acc, api, con):
             debug = rnd.random() < 0.6
             lib_case(fname, args, debug, acc, api, con, spy)
         acc.cover('functions', fname)
+    if spec['shard'] == 0:
+        # directed calls (each one was a finding or a near-miss of an earlier run)
+        for fname, args in [('dataParseCSV', ['a', '1,2']), ('dataParseCSV', ['a,b\n1,2,3']), ('dataParseCSV', ['a,b', '1']), ('dataParseCSV', ['a,a', '1,2']),
+                            ('dataParseCSV', ['', '1']), ('dataValidate', [[{'a': 1}, {'a': 'x'}]]), ('dataAggregate', [[{'a': 'x'}], {'measures': [{'field': 'a', 'function': 'sum'}]}]),
+                            ('dataSort', [[{'a': 1}], 'a']), ('dataSort', [[{'a': 1}, 5], [['a']]]), ('dataTop', [[1, 2], 1]), ('dataJoin', [[{'a': 1}], [5], 'a']),
+                            ('objectNew', ['a']), ('regexReplace', [re.compile('a'), 'aaa', '$9']), ('regexNew', ['(?<n>a)', 'q']), ('jsonParse', ['{"a": NaN}']),
+                            ('stringFromCharCode', [1114112]), ('datetimeNew', [9999, 12, 32]), ('schemaValidate', [{}, 'X', 1]), ('schemaParse', [5]),
+                            ('arrayJoin', [[float('inf'), [float('nan')]], ',']), ('jsonStringify', [[float('inf')]]), ('stringNew', [{'a': float('nan')}])]:
+            lib_case(fname, [x if callable(x) else copy.deepcopy(x) for x in args], True, acc, api, con, spy)
 
 
 def lib_case(fname, args, debug, acc, api, con, spy):
